@@ -311,7 +311,7 @@ func checkBasic(c *vrun.Ctx, rng *rand.Rand, bc *basicCase, exp map[int]tla.Valu
 	return nil
 }
 
-func runBasic(c *vrun.Ctx) error {
+func prepareBasic(c *vrun.Ctx) (*gcsPart, error) {
 	st := newStats()
 	seed := c.Seed
 	var cases []*basicCase
@@ -325,20 +325,20 @@ func runBasic(c *vrun.Ctx) error {
 		return nil
 	})
 	if err != nil {
-		return err
+		return nil, err
 	}
 	var gs []*gcsCase
 	for _, bc := range cases {
 		for _, bb := range bc.blocks {
-			bb.g.id = len(gs) + 1
 			gs = append(gs, bb.g)
 		}
 	}
-	c.Logf("Basic.tla: %d chains, %d blocks built; evaluating their filters with TraceGcs.tla", len(cases), len(gs))
-	exp, err := evalGcsTrace(c, "tracegcs-basic", gs)
-	if err != nil {
-		return err
-	}
+	c.Logf("Basic.tla: %d chains, %d blocks built; their filters go to TraceGcs.tla", len(cases), len(gs))
+	return &gcsPart{cases: gs, check: func(exp map[int]tla.Value) error { return checkBasicAll(c, cases, exp, st) }}, nil
+}
+
+func checkBasicAll(c *vrun.Ctx, cases []*basicCase, exp map[int]tla.Value, st *stats) error {
+	seed := c.Seed
 	parent := c.Scratch
 	if fi, err := os.Stat("/dev/shm"); err == nil && fi.IsDir() {
 		if d, err := os.MkdirTemp("/dev/shm", "verif-c20-"); err == nil {
